@@ -498,6 +498,18 @@ def parse_tag(text: str, parser: Optional[Parser]) -> Tuple[str, List[TagAttr]]:
 
         return result
 
+    # Is the next token `[` / `{`, optionally preceded by a spread? As with variables, whitespace
+    # may follow `*` and `**` (but not `...`), e.g. `[ * [1, 2] ]` or `{ ** {"key": val} }`.
+    def is_next_struct(bracket: str) -> bool:
+        offset = index
+        if text.startswith("...", offset):
+            offset += 3
+        elif text.startswith("*", offset):
+            offset += 2 if text.startswith("**", offset) else 1
+            while text[offset : offset + 1] in TAG_WHITESPACE:  # noqa: E203
+                offset += 1
+        return text.startswith(bracket, offset)
+
     def extract_spread_token(curr_struct: TagValueStruct, filter_token: Optional[str]) -> Optional[str]:
         # Move the spread syntax out of the way, so that we properly handle what's next.
         # Spread syntax MUST NOT be part of a filter, so that will raise if so.
@@ -591,7 +603,7 @@ def parse_tag(text: str, parser: Optional[Parser]) -> Tuple[str, List[TagAttr]]:
             curr_value = stack[-1]
 
             # Manage state with regards to lists and dictionaries
-            if is_next_token(["[", "...[", "*[", "**["]):
+            if is_next_struct("["):
                 spread_token = extract_spread_token(curr_value, None)
                 if spread_token is not None:
                     if curr_value.type == "simple" and key is not None:
@@ -613,7 +625,7 @@ def parse_tag(text: str, parser: Optional[Parser]) -> Tuple[str, List[TagAttr]]:
                     stack.pop()
                 continue
 
-            elif is_next_token(["{", "...{", "*{", "**{"]):
+            elif is_next_struct("{"):
                 spread_token = extract_spread_token(curr_value, None)
                 if spread_token is not None:
                     if curr_value.type == "simple" and key is not None:
